@@ -510,9 +510,8 @@ func ruleC09CloseChains(c *Ctx) {
 		c.unresolved("cache.Close", "(*cache[K,V]).Close")
 	} else {
 		c.FuncsAnalysed[shortName(cc)] = true
-		evictSeen := false
-		// every path to return takes the (closing == true) edge or the (size > 0) == false edge
-		ok, tr := mustPass(cc.Blocks[0], 0, func(i ssa.Instruction) bool { return false }, func(from, to *ssa.BasicBlock) bool {
+		// every path to return takes the (closing == true) edge or the (size > 0) == false edge (or has called a helper that drains)
+		ok, tr := mustPass(cc.Blocks[0], 0, func(i ssa.Instruction) bool { return drainHelperCall(i) != nil }, func(from, to *ssa.BasicBlock) bool {
 			for _, fct := range edgeFacts(from, to) {
 				if strings.HasSuffix(accessPath(fct.V), "P:c.closing") && fct.True {
 					return true
@@ -524,31 +523,13 @@ func ruleC09CloseChains(c *Ctx) {
 			return false
 		})
 		// inside the loop: the (size > 0) true edge must reach evict() before coming back to the test
-		var loopOK = true
-		for _, b := range cc.Blocks {
-			for _, s := range b.Succs {
-				for _, fct := range edgeFacts(b, s) {
-					if sizePositive(fct.V) && fct.True {
-						found, _ := pathSearchAt(s, 0, func(i ssa.Instruction) pathAction {
-							if f := staticCallee(i); f != nil && (f.Name() == "evict" || f.Name() == "evictItem") {
-								evictSeen = true
-								return pathStop
-							}
-							if i.Block() == b && indexOf(i) == 0 {
-								return pathFound // back at the loop test without evicting
-							}
-							if isReturn(i) {
-								return pathFound
-							}
-							return pathContinue
-						}, nil)
-						if found {
-							loopOK = false
-						}
-					}
-				}
+		evictSeen, loopOK := drainLoop(cc)
+		allInstrs(cc, func(i ssa.Instruction) {
+			if g := drainHelperCall(i); g != nil {
+				c.FuncsAnalysed[shortName(g)] = true
+				evictSeen, loopOK = true, true
 			}
-		}
+		})
 		switch {
 		case !ok:
 			c.bad("cache.Close/drain", u.pos(cc.Pos()), "a path through cache.Close returns while size may still be > 0 (entries are dropped without their eviction callback)", u.tracePositions(tr)...)
@@ -618,6 +599,85 @@ func ruleC09CloseChains(c *Ctx) {
 			}
 		}
 	}
+}
+
+// drainLoop: on every `size > 0` true edge of fn, evict() is reached before the test is reached again or fn returns.
+func drainLoop(fn *ssa.Function) (evictSeen, loopOK bool) {
+	loopOK = true
+	for _, b := range fn.Blocks {
+		for _, s := range b.Succs {
+			for _, fct := range edgeFacts(b, s) {
+				if sizePositive(fct.V) && fct.True {
+					found, _ := pathSearchAt(s, 0, func(i ssa.Instruction) pathAction {
+						if f := staticCallee(i); f != nil && (f.Name() == "evict" || f.Name() == "evictItem") {
+							evictSeen = true
+							return pathStop
+						}
+						if i.Block() == b && indexOf(i) == 0 {
+							return pathFound // back at the loop test without evicting
+						}
+						if isReturn(i) {
+							return pathFound
+						}
+						return pathContinue
+					}, nil)
+					if found {
+						loopOK = false
+					}
+				}
+			}
+		}
+	}
+	return
+}
+
+// drainsToEmpty: g is a helper that returns only on the false edge of `size > 0` and evicts on every iteration of that loop.
+func drainsToEmpty(g *ssa.Function) bool {
+	if g == nil || g.Blocks == nil || g.Signature.Results().Len() != 0 {
+		return false
+	}
+	ok, _ := mustPass(g.Blocks[0], 0, func(i ssa.Instruction) bool { return false }, func(from, to *ssa.BasicBlock) bool {
+		for _, fct := range edgeFacts(from, to) {
+			if sizePositive(fct.V) && !fct.True {
+				return true
+			}
+		}
+		return false
+	})
+	if !ok {
+		return false
+	}
+	seen, loopOK := drainLoop(g)
+	return seen && loopOK
+}
+
+// drainHelperCall: i is a plain call (not go/defer) to a same-package helper that drains the cache to empty.
+func drainHelperCall(i ssa.Instruction) *ssa.Function {
+	if _, isCall := i.(*ssa.Call); !isCall {
+		return nil
+	}
+	g := staticCallee(i)
+	if g == nil || i.Parent() == nil || g.Pkg != i.Parent().Pkg || g == i.Parent() {
+		return nil
+	}
+	if drainsToEmpty(g) {
+		return g
+	}
+	return nil
+}
+
+// afterDrain: i executes only once size is known not to be > 0: on the false edge of the test, or after a draining helper.
+func afterDrain(i ssa.Instruction) bool {
+	if guardedBy(i, false, sizePositive) {
+		return true
+	}
+	found := false
+	allInstrs(i.Parent(), func(j ssa.Instruction) {
+		if drainHelperCall(j) != nil && instrDominates(j, i) {
+			found = true
+		}
+	})
+	return found
 }
 
 func sizePositive(v ssa.Value) bool {
